@@ -14,7 +14,7 @@ TCP / untranslatable: never more permissive), independent of the Lean model.
 import json
 import os
 
-THEOREMS = ["IstioModel.C08.Atoms", "IstioModel.C08.Theorems"]
+THEOREMS = ["IstioModel.C08.Atoms", "IstioModel.C08.Theorems", "IstioModel.C08.Clause2"]
 STREAMS = ("compile", "requests", "tcp")
 
 
@@ -79,9 +79,15 @@ def oracle(ctx, stream, case_lines, rep):
             continue
         verdicts = ctx.read_lines(out)
         cases = list(_cases(ctx.read_lines(ops)))
+        known = set(k.get("fingerprint") for k in ctx.known if k.get("status") == "known")
         for i, v in enumerate(verdicts):
             if v.startswith("FAIL") and i < len(cases):
-                return _fail_to_violation(stream, v, cases[i], rep)
+                found = _fail_to_violation(stream, v, cases[i], rep)
+                # an input of an already known class does not explain a NEW difference between model and
+                # implementation: keep searching; if nothing else fails the run ends no-failing-input-found
+                if found[0] in known:
+                    continue
+                return found
     return None
 
 
@@ -118,17 +124,16 @@ def hyps_coverage(ctx, stream, ops):
         n += 1
         if f["hyps"] == "1":
             inscope += 1
-            if f["compiled"] == "allow" and f["spec"] == "deny":
-                ctx.tie_broken("theorem-instance:compile_failclosed",
-                               "hypotheses hold but the Lean compiled decision is more permissive: " + l)
+            # compile_all_exact: under its hypotheses the two decisions are EQUAL on every chain,
+            # translatable or not (a difference here means the Lean driver contradicts a proved theorem)
+            if f["compiled"] != f["spec"]:
+                ctx.tie_broken("theorem-instance:compile_all_exact",
+                               "hypotheses hold but the Lean decisions differ: " + l)
             if f["tr"] == "1":
                 exact += 1
-                if f["compiled"] != f["spec"]:
-                    ctx.tie_broken("theorem-instance:compile_correct_http",
-                                   "hypotheses hold but the Lean decisions differ: " + l)
     ctx.count("hyps.%s.requests" % stream, n)
-    ctx.count("hyps.%s.in_scope_of_failclosed" % stream, inscope)
-    ctx.count("hyps.%s.in_scope_of_compile_correct" % stream, exact)
+    ctx.count("hyps.%s.in_scope_of_compile_all_exact" % stream, inscope)
+    ctx.count("hyps.%s.in_scope_and_fully_translatable" % stream, exact)
 
 
 def nontrivial(cur, curo):
@@ -211,19 +216,19 @@ MANIFEST = {
     "level_text": ("Lean 4 compiler-correctness proof: an executable model of Istio's AuthorizationPolicy -> Envoy RBAC compiler "
                    "(model.New/Generate, every generator incl. JWT and metadata ones, matcher.*, MigrateTrustDomain with aliases, Builder.build "
                    "for ALLOW/DENY/AUDIT/CUSTOM, dry-run, filter order, selection) is proved, against Envoy's documented RBAC semantics, to "
-                   "decide every request as the policy semantics of the statement say (compile_correct_http, compile_all_correct_http) and "
-                   "never more permissively on any chain incl. TCP and untranslatable values (compile_failclosed_tcp, tcp_allow_rule_dropped, "
-                   "tcp_deny_enforced_on_remaining); each value->matcher translation has its own matcher_correct_* theorem, where one is "
+                   "decide every request EXACTLY as the statement says on HTTP and TCP chains, clause 2 included (compile_all_exact: ALLOW rule "
+                   "with any inexpressible field matches nothing - allow_rule_dropped; other actions are enforced on the remaining conditions "
+                   "- deny_rule_remaining), with nothing assumed translatable; each value->matcher translation has its own matcher_correct_* theorem, where one is "
                    "false the exact exception is proved with a counterexample. The model is tied to /repo on every run by a structural "
                    "differential against the real validator/selection/builder output and a request-level differential through a reference "
                    "RBAC interpreter."),
     "level_note": ("Trusted: Lean kernel + {propext, Classical.choice, Quot.sound}; Envoy semantics written from docs (no Envoy in sandbox); "
                    "the hand-written model (tied by differential testing on ~6500 policy sets / ~57000 requests quick); Go reference "
-                   "interpreter and Go spec. Main theorems hold under decidable hypotheses evaluated on every generated case (hypsAllB: "
+                   "interpreter and Go spec. Main theorems hold under decidable hypotheses evaluated on every generated case (hypsOnB: "
                    "values inside the proved matcher scope, plain trust-domain bundle/values, Istio-form peer identity, distinct generated "
                    "names) - about 85-90% of the generated (policy, request) pairs. IPv4 only; external authorizer of CUSTOM assumed to allow; "
                    "path templates via a shared matcher. Known findings: namespace `*a`/`*sa` regex over-match, requestPrincipals prefix "
-                   "split; fixed: dry-run CUSTOM policy enforced as DENY."),
+                   "split, header `*` matches an empty value; hardening fix: dry-run CUSTOM policy enforced as DENY."),
     "technique": "Lean 4 compiler-correctness theorems over an exact model of the RBAC generators + structural and request-level differential with the real Go builder",
     "design_ref": "DESIGN.md section 5 C08",
 }
